@@ -176,7 +176,7 @@ RECONNECT_CAUSES = ('healthy', 'eof', 'rst', 'wr')
 CLOSE_STEPS = 16
 
 
-def close_during_reconnect(flavour, cause, trigger, k, pending, part):
+def close_during_reconnect(flavour, cause, trigger, k, pending, part, role='client'):
     """A client with a provider of three transports; the connection ends by `cause`, reconnect() is asked for (by the
     application itself or from its on_close callback), and the application calls close() exactly k loop iterations later -
     every k from 'same iteration' to 'the new connection is up'. After close() the client is closed: it sends nothing any more on
@@ -195,9 +195,14 @@ def close_during_reconnect(flavour, cause, trigger, k, pending, part):
             late.append(f)
             return f
 
-        for c in conns:
-            start_server(w, c, {'request_response': rr})
         closes = []
+        s_closes = []
+
+        def s_on_close(h, rsocket):
+            s_closes.append(len(w.log))
+
+        for c in conns:
+            start_server(w, c, {'request_response': rr, 'on_close': s_on_close})
 
         def on_close(h, rsocket):
             closes.append(len(w.log))
@@ -205,7 +210,9 @@ def close_during_reconnect(flavour, cause, trigger, k, pending, part):
                 w.logev(('reconnect-requested', 'on_close'))
                 return rsocket.reconnect()
 
-        client = start_client(w, conns, {'on_close': on_close}, keep_alive_period=timedelta(seconds=0.5), max_lifetime_period=timedelta(seconds=1.0))
+        client = start_client(w, conns, {'on_close': on_close, 'request_response': rr}, keep_alive_period=timedelta(seconds=0.5), max_lifetime_period=timedelta(seconds=1.0))
+        me = client if role == 'client' else conns[0].server  # the endpoint that loses the connection and is then closed
+        mine_in, mine_out = (conns[0].s2c, conns[0].c2s) if role == 'client' else (conns[0].c2s, conns[0].s2c)
 
         def pump():
             for _ in range(6):
@@ -228,18 +235,18 @@ def close_during_reconnect(flavour, cause, trigger, k, pending, part):
         pump()
         st = {}
         if pending:
-            st['fut'] = watch_future(w, 'c', 'futA', client.request_response(P(b'late')))
+            st['fut'] = watch_future(w, 'c', 'futA', me.request_response(P(b'late')))
             st['sub'] = RecSubscriber(w, 'c', 'subB')
-            client.request_stream(P(b's')).initial_request_n(1).subscribe(st['sub'])
+            me.request_stream(P(b's')).initial_request_n(1).subscribe(st['sub'])
             pump()
         # the previous connection ends / the application asks for the reconnect
         c0 = conns[0]
         if cause == 'eof':
-            c0.s2c.deliver_eof()
+            mine_in.deliver_eof()
         elif cause in ('rst', 'wr'):
             if cause == 'wr':
-                c0.c2s.write_error = True
-            c0.s2c.deliver_error()
+                mine_out.write_error = True
+            mine_in.deliver_error()
         if trigger == 'free':
             w.logev(('reconnect-requested', 'free'))
             w.loop.create_task(client.reconnect())
@@ -247,7 +254,7 @@ def close_during_reconnect(flavour, cause, trigger, k, pending, part):
             w.loop.step()
         mark = len(w.log)
         w.logev(('close-called',))
-        closer = w.loop.create_task(client.close())
+        closer = w.loop.create_task(me.close())
         w.run_q()
         pump()
         quiet = len(w.log)
@@ -264,9 +271,9 @@ def close_during_reconnect(flavour, cause, trigger, k, pending, part):
         part.evaluations += 1
         part.traces += 1
         part.transitions += k + 2
-        ctx = 'close-during-reconnect | %s/%s' % (cause, trigger)
-        wit = {'kind': 'close-during-reconnect', 'flavour': flavour, 'cause': cause, 'trigger': trigger, 'k': k, 'pending': pending}
-        late_tx = [ev for ev in w.log[quiet:] if ev[0] == 'tx' and ev[1].startswith('c')]
+        ctx = ('close-during-reconnect | %s/%s' % (cause, trigger)) if trigger != 'none' else ('close-during-teardown | %s/%s' % (role, cause))
+        wit = {'kind': 'close-during-reconnect', 'flavour': flavour, 'cause': cause, 'trigger': trigger, 'k': k, 'pending': pending, 'role': role}
+        late_tx = [ev for ev in w.log[quiet:] if ev[0] == 'tx' and ev[1].startswith('c' if role == 'client' else 's')]
         took = [ev[1] for ev in w.log[quiet:] if ev[0] == 'provide']
         part.state((flavour, cause, trigger, pending, closer.done(), len(late_tx), len(took), len(closes)))
         part.outcome((closer.done(), bool(late_tx), len(closes)))
@@ -276,9 +283,11 @@ def close_during_reconnect(flavour, cause, trigger, k, pending, part):
             part.violate('C11.stops-sending', 'C11.stops-sending | %s | after-close' % ctx,
                          'close() called %d loop iterations after the reconnect request: afterwards the client took %s from its provider and wrote %s (close() %s)' % (
                              k, took, [ev[2].name for ev in late_tx][:6], 'returned' if closer.done() else 'never returned'), wit)
-        per_conn = len(closes)
-        if per_conn > 2:
-            part.violate('C11.on-close-once', 'C11.on-close-once | %s | calls=%d' % (ctx, per_conn), 'on_close invoked %d times for at most two connections' % per_conn, wit)
+        per_conn = len(closes) if role == 'client' else len(s_closes)
+        if per_conn > (2 if trigger != 'none' else 1):
+            part.violate('C11.on-close-once', 'C11.on-close-once | %s | calls=%d' % (ctx, per_conn), 'on_close invoked %d times for at most %d connections' % (per_conn, 2 if trigger != 'none' else 1), wit)
+        if trigger == 'none' and cause != 'healthy' and per_conn != 1:
+            part.violate('C11.on-close-once', 'C11.on-close-once | %s | calls=%d' % (ctx, per_conn), 'connection lost and close() called %d iterations later: on_close invoked %d times' % (k, per_conn), wit)
         if pending and cause != 'healthy':
             if st['fut']['state'] == 'pending':
                 part.violate('C11.pending-failed', 'C11.pending-failed | %s | awaitable' % ctx, 'request-response pending when the connection ended was never failed (k=%d)' % k, wit)
@@ -396,6 +405,12 @@ def run_unit(unit, part):
                 for pending in (False, True):
                     for k in range(CLOSE_STEPS):
                         close_during_reconnect(unit['flavour'], cause, trigger, k, pending, part)
+        # no reconnect at all: close() called k loop iterations after the loss, i.e. in the middle of the teardown, in both roles
+        for role in ('client', 'server'):
+            for cause in RECONNECT_CAUSES:
+                for pending in (False, True):
+                    for k in range(CLOSE_STEPS):
+                        close_during_reconnect(unit['flavour'], cause, 'none', k, pending, part, role)
         part.sample({'kind': 'close-during-reconnect', 'link': unit['flavour'], 'causes': list(RECONNECT_CAUSES), 'close_after_loop_iterations': [0, CLOSE_STEPS - 1]}, limit=1)
         return
     dev_explore(scenario_of(unit), unit['bound'], part, shard=tuple(unit['shard']), det_every=200)
@@ -412,7 +427,7 @@ def replay(rec):
     if w.get('kind') == 'close-during-reconnect':
         from mc.runner import Partial
         p = Partial()
-        close_during_reconnect(w['flavour'], w['cause'], w['trigger'], w['k'], w['pending'], p)
+        close_during_reconnect(w['flavour'], w['cause'], w['trigger'], w['k'], w['pending'], p, w.get('role', 'client'))
         for v in p.violations.values():
             print(v.rule, '|', v.detail)
         return bool(p.violations)
